@@ -102,6 +102,10 @@ struct Scenario {
     seed: u32,
     #[serde(default)]
     auth: Option<String>, // policy for tls_authz
+    #[serde(default)]
+    name: Option<String>, // tls_client: expected server name (None = name verification disabled)
+    #[serde(default)]
+    local_cert: String, // tls_client: the client's own certificate
     steps: Vec<Step>,
 }
 
@@ -455,6 +459,163 @@ async fn read_frame(conn: &mut Conn, ms: u64) -> Result<Vec<u8>, &'static str> {
     }
 }
 
+fn server_config(cert: &str, vs: &[String]) -> Result<rustls::ServerConfig, String> {
+    use rustls::pki_types::pem::PemObject;
+    let provider = Arc::new(rustls::crypto::ring::default_provider());
+    let c = rustls::pki_types::CertificateDer::from_pem_file(pem_path(cert, "cert")).map_err(|e| format!("{e:?}"))?;
+    let k = rustls::pki_types::PrivateKeyDer::from_pem_file(pem_path(cert, "key")).map_err(|e| format!("{e:?}"))?;
+    rustls::ServerConfig::builder_with_provider(provider)
+        .with_protocol_versions(&versions(vs))
+        .map_err(|e| e.to_string())?
+        .with_no_client_auth()
+        .with_single_cert(vec![c], k)
+        .map_err(|e| e.to_string())
+}
+
+struct StateLog {
+    sink: Sink,
+    last: Arc<std::sync::Mutex<Vec<String>>>,
+}
+
+impl rodbus::client::Listener<rodbus::client::ClientState> for StateLog {
+    fn update(&mut self, value: rodbus::client::ClientState) -> MaybeAsync<()> {
+        let name = format!("{value:?}").split('(').next().unwrap_or("").to_string();
+        self.sink.emit(json!({"e":"cstate","state":name}));
+        self.last.lock().unwrap().push(name);
+        MaybeAsync::ready(())
+    }
+}
+
+/// C09 client role (and the handshake-stall scenarios): the rodbus TLS client against a rustls server of the harness
+async fn run_tls_client(sc: &Scenario, sink: &Sink) {
+    use rodbus::client::*;
+    sink.emit(json!({"e":"tlsc_cfg","id":sc.id,"mode":sc.mode,"min_tls":sc.min_tls,"trust":sc.peer_cert,
+        "name":sc.name.clone().unwrap_or_default(),"local_cert":sc.local_cert}));
+    let min = if sc.min_tls == "1.3" { MinTlsVersion::V1_3 } else { MinTlsVersion::V1_2 };
+    for st in &sc.steps {
+        let peer = st.tls.clone().unwrap_or_default();
+        let listener = tokio::net::TcpListener::bind("127.0.0.1:0").await.unwrap();
+        let port = listener.local_addr().unwrap().port();
+        let cfg = if sc.mode == "self" {
+            TlsClientConfig::self_signed(
+                std::path::Path::new(&pem_path(&sc.peer_cert, "cert")),
+                std::path::Path::new(&pem_path(&sc.local_cert, "cert")),
+                std::path::Path::new(&pem_path(&sc.local_cert, "key")),
+                None,
+                min,
+            )
+        } else {
+            TlsClientConfig::full_pki(
+                sc.name.clone(),
+                std::path::Path::new(&pem_path(&sc.peer_cert, "cert")),
+                std::path::Path::new(&pem_path(&sc.local_cert, "cert")),
+                std::path::Path::new(&pem_path(&sc.local_cert, "key")),
+                None,
+                min,
+            )
+        };
+        let cfg = match cfg {
+            Ok(c) => c,
+            Err(e) => {
+                sink.emit(json!({"e":"create_failed","why":format!("{e}")}));
+                continue;
+            }
+        };
+        let states = Arc::new(std::sync::Mutex::new(Vec::new()));
+        let (channel, task) = create_tls_client_task_with_options(
+            HostAddr::ip("127.0.0.1".parse().unwrap(), port),
+            doubling_retry_strategy(Duration::from_millis(200), Duration::from_millis(200)),
+            cfg,
+            Some(Box::new(StateLog { sink: sink.clone(), last: states.clone() })),
+            ClientOptions::default(),
+        );
+        let task = tokio::spawn(task.run());
+        let _ = channel.enable().await;
+        let (stream, _) = match tokio::time::timeout(Duration::from_secs(3), listener.accept()).await {
+            Ok(Ok(x)) => x,
+            _ => {
+                sink.emit(json!({"e":"tlsc","cert":peer.cert.clone().unwrap_or_default(),"versions":peer.versions,"outcome":"noconnect","version":""}));
+                continue;
+            }
+        };
+        if st.silent {
+            // the peer accepts TCP and then says nothing: the handshake stalls
+            let t0 = std::time::Instant::now();
+            let ch2 = channel.clone();
+            let reqt = tokio::spawn(async move {
+                ch2.read_coils(RequestParam::new(UnitId::new(1), Duration::from_millis(200)), AddressRange::try_from(0, 1).unwrap()).await
+            });
+            let req_done = tokio::time::timeout(Duration::from_millis(2500), reqt).await;
+            let req_ms = t0.elapsed().as_millis() as u64;
+            let _ = channel.shutdown().await;
+            let mut task = task;
+            let ended = tokio::time::timeout(Duration::from_millis(2500), &mut task).await.is_ok();
+            sink.emit(json!({"e":"tlsc_stall","request_completed":req_done.is_ok(),
+                "request_result": match &req_done { Ok(Ok(r)) => format!("{r:?}").split('(').next().unwrap_or("").to_string(), _ => "pending".to_string() },
+                "request_ms":req_ms,"task_ended_after_shutdown":ended}));
+            if !ended {
+                task.abort();
+            }
+            drop(stream);
+            continue;
+        }
+        let acceptor = match server_config(peer.cert.as_deref().unwrap_or("server"), &peer.versions) {
+            Ok(c) => tokio_rustls::TlsAcceptor::from(Arc::new(c)),
+            Err(e) => {
+                sink.emit(json!({"e":"tls","outcome":"config_error","err":e}));
+                continue;
+            }
+        };
+        let accepted = tokio::time::timeout(Duration::from_secs(3), acceptor.accept(stream)).await;
+        // what the client made of it: Connected, or a wait state after the failed attempt
+        let t0 = std::time::Instant::now();
+        let mut verdict = "none".to_string();
+        while t0.elapsed() < Duration::from_secs(3) {
+            let g = states.lock().unwrap();
+            if let Some(x) = g.iter().find(|x| *x == "Connected" || x.starts_with("WaitAfter")) {
+                verdict = x.clone();
+                break;
+            }
+            drop(g);
+            tokio::time::sleep(Duration::from_millis(5)).await;
+        }
+        let (srv_ok, version) = match &accepted {
+            Ok(Ok(s)) => (true, match s.get_ref().1.protocol_version() {
+                Some(rustls::ProtocolVersion::TLSv1_2) => "1.2",
+                Some(rustls::ProtocolVersion::TLSv1_3) => "1.3",
+                _ => "?",
+            }),
+            _ => (false, ""),
+        };
+        let mut modbus = "none".to_string();
+        if let (Ok(Ok(mut s)), true) = (accepted, verdict == "Connected") {
+            // Modbus flows only over the established session
+            let ch2 = channel.clone();
+            let reqt = tokio::spawn(async move {
+                ch2.read_holding_registers(RequestParam::new(UnitId::new(1), Duration::from_millis(1500)), AddressRange::try_from(0, 1).unwrap()).await
+            });
+            let mut buf = [0u8; 64];
+            if let Ok(Ok(n)) = tokio::time::timeout(Duration::from_secs(2), s.read(&mut buf)).await {
+                if n >= 12 {
+                    let rsp = [buf[0], buf[1], 0, 0, 0, 5, buf[6], 3, 2, 0, 9];
+                    let _ = s.write_all(&rsp).await;
+                }
+            }
+            modbus = match tokio::time::timeout(Duration::from_secs(2), reqt).await {
+                Ok(Ok(Ok(v))) => format!("ok{}", v.first().map(|x| x.value).unwrap_or(0)),
+                Ok(Ok(Err(e))) => format!("{e:?}"),
+                _ => "pending".to_string(),
+            };
+        }
+        sink.emit(json!({"e":"tlsc","cert":peer.cert.clone().unwrap_or_default(),"versions":peer.versions,
+            "outcome": if verdict == "Connected" { "connected" } else if verdict.starts_with("WaitAfter") { "failed" } else { "none" },
+            "verdict":verdict,"server_side_established":srv_ok,"version":version,"modbus":modbus}));
+        let _ = channel.shutdown().await;
+        let _ = tokio::time::timeout(Duration::from_secs(2), task).await;
+    }
+    sink.emit(json!({"e":"scenario_end"}));
+}
+
 /// wildcard strings through `WildcardIPv4::from_str` and `rodbus_address_filter_create`
 async fn run_wildcards(sc: &Scenario, sink: &Sink) {
     sink.emit(json!({"e":"wild_cfg","id":sc.id}));
@@ -483,6 +644,9 @@ async fn run_wildcards(sc: &Scenario, sink: &Sink) {
 async fn run_scenario(sc: &Scenario, sink: &Sink) {
     if sc.variant == "wild" {
         return run_wildcards(sc, sink).await;
+    }
+    if sc.variant == "tls_client" {
+        return run_tls_client(sc, sink).await;
     }
     let (htx, mut hrx) = tokio::sync::mpsc::unbounded_channel::<Event>();
     {
